@@ -27,8 +27,21 @@ def run(tier):
     wd, res, _ = tc.model(chk, PID, 2, 3, tc.BELL, ["StateTomoCorrect"], tag="_bell")
     tc.replay(chk, PID, res, {"nq": 2, "what": ["state"], "seed": chk.seed, "two_qubit": "ps"}, 1.0, MINE, "2 qubits, Bell-state scope")
     tlc.cleanup(PID + "_nq2_g3_bell")
+    import multiprocessing as mp
     from ..adapters import tomo as ta
-    from ..common import guard
+    # arbitrary states on n = 1..3 qubits: Haar-random local unitaries around heralded / post-selected entangling gates
+    jobs = [(1, k) for k in range(600 if th else 60)] + [(2, k) for k in range(600 if th else 60)] + [(3, k) for k in range(120 if th else 12)]
+    with mp.get_context("fork").Pool(12) as pool:
+        results = pool.map(ta.continuous_state_case, jobs, chunksize=2)
+    for (nq, k), r in zip(jobs, results):
+        chk.count(key="cont%d/%d" % (nq, k))
+        if k % 53 == 0:
+            chk.sample({"qubits": nq, "state": r.get("desc")})
+        for clause, detail in r["findings"]:
+            if clause in MINE:
+                chk.violation(clause, detail, script={"module": "evaluator (continuous states)", "nq": nq, "case": k}, sig={"clause": clause, "scope": "continuous"})
+    chk.traces_validated += len(jobs)
+    chk.add_phase("continuous states (Haar-random local unitaries, n = 1..3)", cases=len(jobs))
     chk.count(key="bell-regression")
     for clause, detail in ta.bell_regression():
         chk.violation(clause, detail, script={"directed": "odd-parity Bell states, H/X/CNOT, Analyzer frequencies"}, sig={"clause": clause, "case": "odd-parity Bell state"})
